@@ -112,6 +112,7 @@ func main() {
 		repMu.Lock()
 		s := curScn.Load()
 		if s == nil {
+			fmt.Fprintln(os.Stderr, "xpsim: the main goroutine is blocked before any scenario was started:", detail)
 			os.Exit(2)
 		}
 		v := run.Violation{Prop: *prop, Kind: "deadlock", Class: "deadlock:blocked-for-ever", Detail: detail, Step: -1}
